@@ -34,11 +34,27 @@ type C04Case struct {
 	// Aliases[i] are further names of container i (the daemon lists every name of a container,
 	// e.g. "/db" and "/web/db" with legacy links); a container is still one container.
 	Aliases [][]string `json:"aliases,omitempty"`
+	// Broken-1, when Broken > 0, is the container whose log cannot be decoded from its first
+	// byte on (BrokenKind: tty - raw text without frame headers, syserr - an error frame of the
+	// daemon, badts - a frame without a timestamp): the merge cannot contain its records, so it
+	// must not be reported as a success.
+	Broken     int    `json:"broken,omitempty"`
+	BrokenKind string `json:"broken_kind,omitempty"`
 }
 
 func c04Ctr(c C04Case, i int) fakedocker.Container {
 	ctr := dl.Ctr(fmt.Sprintf("id%d", i), fmt.Sprintf("c%d", i), nil, c.Ctrs[i])
 	ctr.Frag = c.Frag
+	if c.Broken == i+1 {
+		switch c.BrokenKind {
+		case "syserr":
+			ctr.Log = append(fakedocker.EncodeFrame(fakedocker.Systemerr, []byte("error from daemon in stream: no such log driver\n")), ctr.Log...)
+		case "badts":
+			ctr.Log = append(fakedocker.EncodeFrame(fakedocker.Stdout, []byte("no timestamp in front of this line\n")), ctr.Log...)
+		default:
+			ctr.Log = []byte("a container with a terminal writes plain text\r\nwithout frame headers\r\n")
+		}
+	}
 	if i < len(c.Aliases) {
 		ctr.Summary.Names = append(ctr.Summary.Names, c.Aliases[i]...)
 	}
@@ -255,10 +271,24 @@ func c04Check(c C04Case) (r evid.Result) {
 	r.NonTrivial = nonEmpty >= 2 && (interleave || crossTie)
 	r.Evals = len(orders)
 
+	r.Class(c.Broken > 0, "one-undecodable-stream")
 	var first []c04Out
 	for oi, order := range orders {
 		out, err, rep := c04Run(c, order)
 		what := fmt.Sprintf("completion order %v", order)
+		if c.Broken > 0 {
+			// The merged stream cannot contain "every record of every selected container":
+			// a merge that ends without an error claims it does.
+			if err == nil {
+				r.Violation = evid.Viol("C04/incomplete-merge-succeeded", "%s: the log of container %d cannot be decoded (%s) but the merge of %d containers ended without an error after %d records", what, c.Broken-1, c.BrokenKind, n, len(out))
+				return r
+			}
+			if rep.Opened != rep.Closed {
+				r.Violation = evid.Viol("C04/close", "%s: %d readers opened, %d closed", what, rep.Opened, rep.Closed)
+				return r
+			}
+			continue
+		}
 		if err != nil {
 			r.Violation = evid.Viol("C04/error", "%s: unexpected error %v", what, err)
 			return r
@@ -391,6 +421,11 @@ func c04Gen(t *rapid.T) C04Case {
 				c.Aliases[i] = append(c.Aliases[i], fmt.Sprintf("/link%d/c%d", k, i))
 			}
 		}
+	}
+	if n >= 1 && rapid.IntRange(0, 7).Draw(t, "one-undecodable-stream") == 0 {
+		c.Broken = rapid.IntRange(1, n).Draw(t, "broken")
+		c.BrokenKind = rapid.SampledFrom([]string{"tty", "syserr", "badts"}).Draw(t, "broken-kind")
+		return c
 	}
 	if n >= 2 && rapid.IntRange(0, 2).Draw(t, "history") == 0 {
 		calls := rapid.IntRange(1, 3).Draw(t, "history-calls")
